@@ -191,10 +191,12 @@ def specHRun {α : Type} [DecidableEq α] (cls : Bytes → α) (kind : QKind) : 
 
 /-! ## the invariant: the durable copy at the key is the in-memory content -/
 
-structure QInv (K : Bytes → Prop) (k : Bytes) (kind : QKind) (n : Nat) (db : Db) (mem : List Bytes) : Prop where
+structure QInv (K : Bytes → Prop) (k : Bytes) (kind : QKind) (n : Nat) (db : Db) (mem : List Bytes) (τ : St) : Prop where
   rel : Rel K n db (absIo db)
   mirror : absIo db k = mem
   nodup : kind = .dusq → mem.Nodup
+  /-- what the other keys hold (`τ` is arbitrary: the operations on `k` preserve it, whatever it is) -/
+  others : ∀ k', k' ≠ k → absIo db k' = τ k'
 
 theorem rel_self_of_post {K : Bytes → Prop} {n n' : Nat} {db db' ents : Db} {k : Bytes} (hr : Rel K n db (absIo db)) (hk : K k)
     (hp : Post k db db' ents) (hi : IonsBelow n' db') : Rel K n' db' (absIo db') := by
@@ -211,17 +213,23 @@ theorem post_sub_of_shrink {k : Bytes} {db db' ents : Db} (hp : Post k db db' en
   · have : e ∈ entsOf db' k := mem_entsOf.mpr ⟨he, h⟩
     rw [hp.atk] at this; exact hsub e this
 
+theorem QInv.step {K : Bytes → Prop} {k : Bytes} {kind : QKind} {n n' : Nat} {db db' ents : Db} {mem mem' : List Bytes} {τ : St}
+    (hq : QInv K k kind n db mem τ) (hk : K k) (hp : Post k db db' ents) (hi : IonsBelow n' db') (hm : absIo db' k = mem')
+    (hnd : kind = .dusq → mem'.Nodup) : QInv K k kind n' db' mem' τ :=
+  ⟨rel_self_of_post hq.rel hk hp hi, hm, hnd, fun k' h => by rw [hp.absIo_other h]; exact hq.others k' h⟩
+
 section step
 variable {α : Type} [DecidableEq α] (cls : Bytes → α)
 
 theorem hstep_refines {kind : QKind} (hinj : kind = .dusq → ∀ a b, cls a = cls b → a = b)
-    {K : Bytes → Prop} (hK : SepFree K) {k : Bytes} (hk : K k) (hvk : validKey (suffix k 0) = true)
-    {n : Nat} {db : Db} {q : Q} (hq : QInv K k kind n db q.mem) (o : HOp) (hw : n + hweight o ≤ 16 ^ W) :
+    {K : Bytes → Prop} {k : Bytes} (hk : K k) {B : Nat} (hE : ExactAt K k B) (hB : B < 16 ^ W) (hvk : validKey (suffix k 0) = true)
+    {n : Nat} {db : Db} {q : Q} {τ : St} (hq : QInv K k kind n db q.mem τ) (o : HOp) (hwB : n + hweight o ≤ B) :
     ∃ db' q', hstep cls kind k db q o = (db', q', (specQ cls kind q.mem o).2) ∧ q'.mem = (specQ cls kind q.mem o).1 ∧
-      QInv K k kind (n + hweight o) db' q'.mem := by
+      QInv K k kind (n + hweight o) db' q'.mem τ := by
+  have hw : n + hweight o ≤ 16 ^ W := by omega
   have hr := hq.rel
   have hinv := hr.inv
-  have hnc := hr.noChild hK hk
+  have hnc := hr.noChild hE hB (by omega)
   have hm := hq.mirror
   cases o with
   | reopen =>
@@ -234,22 +242,22 @@ theorem hstep_refines {kind : QKind} (hinj : kind = .dusq → ∀ a b, cls a = c
         obtain ⟨db', ents, h1, h2, h3, h4⟩ := pinIoVals_spec hinv hnc hvk hr.ions [] hw
         refine ⟨db', ⟨[], false⟩, ?_, by simp [specQ, hz], ?_⟩
         · simp [hstep, inject, hc, hm, hz, h1, specQ]
-        · exact ⟨rel_self_of_post hr hk h2 h4, by simp [h3], fun h => by cases h⟩
+        · exact hq.step hk h2 h4 (by simp [h3]) (fun h => by cases h)
       | dusq =>
         obtain ⟨db', ents, h1, h2, h3, h4⟩ := pinIoSetVals_spec hinv hnc hvk hr.ions [] hw
         refine ⟨db', ⟨[], false⟩, ?_, by simp [specQ, hz], ?_⟩
         · simp [hstep, inject, hc, hm, hz, h1, specQ]
-        · exact ⟨rel_self_of_post hr hk h2 h4, by simp [h3, dedup, dedupAcc], fun _ => List.nodup_nil⟩
+        · exact hq.step hk h2 h4 (by simp [h3, dedup, dedupAcc]) (fun _ => List.nodup_nil)
     · have hlen : q.mem.length ≠ 0 := by simpa using hz
       cases kind with
       | durq =>
-        refine ⟨db, ⟨q.mem, false⟩, ?_, by simp [specQ], ⟨hr, hm, fun h => by cases h⟩⟩
+        refine ⟨db, ⟨q.mem, false⟩, ?_, by simp [specQ], ⟨hr, hm, (fun h => by cases h), hq.others⟩⟩
         simp [hstep, inject, hc, hg, hm, hlen, specQ]
       | dusq =>
         have hnd := hq.nodup rfl
         have : osetUpdate cls [] q.mem = q.mem := by
           rw [osetUpdate_eq cls (hinj rfl), addAll_eq]; simp [dd_of_nodup hnd]
-        refine ⟨db, ⟨q.mem, false⟩, ?_, by simp [specQ], ⟨hr, hm, fun _ => hnd⟩⟩
+        refine ⟨db, ⟨q.mem, false⟩, ?_, by simp [specQ], ⟨hr, hm, fun _ => hnd, hq.others⟩⟩
         simp [hstep, inject, hc, hg, hm, hlen, specQ, this]
   | op o =>
     cases o with
@@ -258,7 +266,7 @@ theorem hstep_refines {kind : QKind} (hinj : kind = .dusq → ∀ a b, cls a = c
       | durq =>
         obtain ⟨db', ents, h1, h2, h3, h4⟩ := addIoVal_spec hinv hnc hvk hr.ions v hw
         refine ⟨db', ⟨q.mem ++ [v], false⟩, by simp [hstep, qstep, h1, specQ], by simp [specQ], ?_⟩
-        exact ⟨rel_self_of_post hr hk h2 h4, by rw [h3, hm], fun h => by cases h⟩
+        exact hq.step hk h2 h4 (by rw [h3, hm]) (fun h => by cases h)
       | dusq =>
         have hi := hinj rfl
         obtain ⟨db', ents, h1, h2, h3, h4⟩ := addIoSetVal_spec hinv hnc hvk hr.ions v hw
@@ -276,7 +284,7 @@ theorem hstep_refines {kind : QKind} (hinj : kind = .dusq → ∀ a b, cls a = c
             simp only [addOne, hc, ↓reduceIte] at hl
             exact absurd hl (Nat.lt_irrefl _)
           · rfl
-        · exact ⟨rel_self_of_post hr hk h2 h4, by rw [h3, hm]; rfl, fun _ => addOne_nodup v (hq.nodup rfl)⟩
+        · exact hq.step hk h2 h4 (by rw [h3, hm]; rfl) (fun _ => addOne_nodup v (hq.nodup rfl))
     | pull emptive =>
       obtain ⟨db', h1, h2⟩ := popIoVal_spec hinv hnc
       have hsub : ∀ e ∈ db', e ∈ db :=
@@ -290,13 +298,13 @@ theorem hstep_refines {kind : QKind} (hinj : kind = .dusq → ∀ a b, cls a = c
         refine ⟨db', q, ?_, by simp [specQ, hmem], ?_⟩
         · simp only [hstep, qstep, hmem, pullDurable, h1, specQ]
           cases emptive <;> simp
-        · rw [hmem]; exact ⟨hrel, habs, fun _ => List.nodup_nil⟩
+        · rw [hmem]; exact ⟨hrel, habs, fun _ => List.nodup_nil, fun k' h => by rw [h2.absIo_other h]; exact hq.others k' h⟩
       | cons v rest =>
         rw [hm, hmem] at h1
         rw [hmem] at habs
         refine ⟨db', ⟨rest, q.stale⟩, ?_, by simp [specQ, hmem], ?_⟩
         · simp [hstep, qstep, hmem, pullDurable, h1, specQ]
-        · refine ⟨hrel, habs, fun h => ?_⟩
+        · refine ⟨hrel, habs, fun h => ?_, fun k' h => by rw [h2.absIo_other h]; exact hq.others k' h⟩
           have := hq.nodup h; rw [hmem] at this; exact (List.nodup_cons.mp this).2
     | extend vs =>
       cases kind with
@@ -304,11 +312,11 @@ theorem hstep_refines {kind : QKind} (hinj : kind = .dusq → ∀ a b, cls a = c
         by_cases hvs : vs = []
         · subst hvs
           refine ⟨db, q, by simp [hstep, qstep, specQ], by simp [specQ], ?_⟩
-          exact ⟨hr, hm, fun h => by cases h⟩
+          exact ⟨hr, hm, (fun h => by cases h), hq.others⟩
         · obtain ⟨db', ents, h1, h2, h3, h4⟩ := putIoVals_spec hinv hnc hvk hr.ions vs hw
           have hne : vs.isEmpty = false := by cases vs <;> simp at hvs ⊢
           refine ⟨db', ⟨q.mem ++ vs, false⟩, by simp [hstep, qstep, hvs, h1, hne, specQ], by simp [specQ], ?_⟩
-          exact ⟨rel_self_of_post hr hk h2 h4, by rw [h3, hm], fun h => by cases h⟩
+          exact hq.step hk h2 h4 (by rw [h3, hm]) (fun h => by cases h)
       | dusq =>
         have hi := hinj rfl
         have hupd := osetUpdate_eq cls hi q.mem vs
@@ -333,7 +341,7 @@ theorem hstep_refines {kind : QKind} (hinj : kind = .dusq → ∀ a b, cls a = c
           refine ⟨db', ⟨addAll q.mem vs, false⟩, ?_, by simp [specQ], ?_⟩
           · simp [hstep, qstep, hupd, hgt, h1, hne, specQ]
             exact hex
-          · exact ⟨rel_self_of_post hr hk h2 h4, by rw [h3, hnew], fun _ => addAll_nodup vs (hq.nodup rfl)⟩
+          · exact hq.step hk h2 h4 (by rw [h3, hnew]) (fun _ => addAll_nodup vs (hq.nodup rfl))
         · have hsame : addAll q.mem vs = q.mem := by
             rw [addAll_eq] at hgt ⊢
             cases hf : (dd vs).filter (fun x => !q.mem.contains x) with
@@ -342,22 +350,21 @@ theorem hstep_refines {kind : QKind} (hinj : kind = .dusq → ∀ a b, cls a = c
           refine ⟨db, ⟨addAll q.mem vs, q.stale⟩, ?_, by simp [specQ], ?_⟩
           · simp [hstep, qstep, hupd, hgt, specQ]
           · rw [hsame]
-            exact ⟨hr.mono (by omega), hm, hq.nodup⟩
+            exact ⟨hr.mono (by omega), hm, hq.nodup, hq.others⟩
     | clear =>
       by_cases hz : q.mem = []
       · refine ⟨db, q, by simp [hstep, qstep, hz, specQ], by simp [specQ, hz], ?_⟩
-        exact ⟨hr, hm, hq.nodup⟩
+        exact ⟨hr, hm, hq.nodup, hq.others⟩
       · obtain ⟨db', h1, h2⟩ := remIoVals_spec hinv hnc
         have hsub : ∀ e ∈ db', e ∈ db := post_sub_of_shrink h2 (fun e he => by cases he)
         have hne : (absIo db k).isEmpty = false := by rw [hm]; cases hq' : q.mem <;> simp_all
         refine ⟨db', ⟨[], q.stale⟩, ?_, by simp [specQ], ?_⟩
         · rw [hm] at hne
           simp [hstep, qstep, hz, h1, hne, hm, specQ]
-        · exact ⟨rel_self_of_post hr hk h2 (fun e he => hr.ions e (hsub e he)), by rw [h2.absIo_at]; rfl,
-            fun _ => List.nodup_nil⟩
+        · exact hq.step hk h2 (fun e he => hr.ions e (hsub e he)) (by rw [h2.absIo_at]; rfl) (fun _ => List.nodup_nil)
     | remove v =>
       cases kind with
-      | durq => exact ⟨db, q, by simp [hstep, qstep, specQ], by simp [specQ], hr, hm, hq.nodup⟩
+      | durq => exact ⟨db, q, by simp [hstep, qstep, specQ], by simp [specQ], hr, hm, hq.nodup, hq.others⟩
       | dusq =>
         have hi := hinj rfl
         have hrem := osetRemove_eq cls hi q.mem v
@@ -367,30 +374,30 @@ theorem hstep_refines {kind : QKind} (hinj : kind = .dusq → ∀ a b, cls a = c
           have hmem : v ∈ q.mem := List.contains_iff_mem.mp hc
           refine ⟨db', ⟨q.mem.erase v, q.stale⟩, ?_, by simp [specQ], ?_⟩
           · simp [hstep, qstep, hrem, hc, hmem, h1, specQ]
-          · exact ⟨rel_self_of_post hr hk h2 (fun e he => hr.ions e (h4 e he)), h3,
-              fun _ => (hq.nodup rfl).erase v⟩
+          · exact hq.step hk h2 (fun e he => hr.ions e (h4 e he)) h3 (fun _ => (hq.nodup rfl).erase v)
         · have hnm : ¬ v ∈ q.mem := fun h => hc (List.contains_iff_mem.mpr h)
-          refine ⟨db, q, ?_, ?_, hr, hm, hq.nodup⟩
+          refine ⟨db, q, ?_, ?_, hr, hm, hq.nodup, hq.others⟩
           · simp [hstep, qstep, hrem, hc, hnm, specQ]
           · simp only [specQ]
             rw [List.erase_of_not_mem]
             intro hmem; exact hc (List.contains_iff_mem.mpr hmem)
     | count v =>
       cases kind with
-      | durq => exact ⟨db, q, by simp [hstep, qstep, specQ], by simp [specQ], hr, hm, hq.nodup⟩
-      | dusq => exact ⟨db, q, by simp [hstep, qstep, specQ], by simp [specQ], hr, hm, hq.nodup⟩
+      | durq => exact ⟨db, q, by simp [hstep, qstep, specQ], by simp [specQ], hr, hm, hq.nodup, hq.others⟩
+      | dusq => exact ⟨db, q, by simp [hstep, qstep, specQ], by simp [specQ], hr, hm, hq.nodup, hq.others⟩
 
 theorem hrun_refines {kind : QKind} (hinj : kind = .dusq → ∀ a b, cls a = cls b → a = b)
-    {K : Bytes → Prop} (hK : SepFree K) {k : Bytes} (hk : K k) (hvk : validKey (suffix k 0) = true) :
-    ∀ (os : List HOp) (n : Nat) (db : Db) (q : Q), QInv K k kind n db q.mem → n + htotal os ≤ 16 ^ W →
+    {K : Bytes → Prop} {k : Bytes} (hk : K k) {B : Nat} (hE : ExactAt K k B) (hB : B < 16 ^ W) (hvk : validKey (suffix k 0) = true)
+    {τ : St} :
+    ∀ (os : List HOp) (n : Nat) (db : Db) (q : Q), QInv K k kind n db q.mem τ → n + htotal os ≤ B →
       hrun cls kind k db q os = specHRun cls kind q.mem os
   | [], _, _, _, _, _ => rfl
   | o :: os, n, db, q, hq, hw => by
     simp only [htotal] at hw
-    obtain ⟨db', q', h1, h2, h3⟩ := hstep_refines cls hinj hK hk hvk hq o (by omega)
-    have ih := hrun_refines hinj hK hk hvk os _ db' q' h3 (by omega)
+    obtain ⟨db', q', h1, h2, h3⟩ := hstep_refines cls hinj hk hE hB hvk hq o (by omega)
+    have ih := hrun_refines hinj hk hE hB hvk os _ db' q' h3 (by omega)
     have hd : durable db' k = .ok q'.mem := by
-      rw [durable, getIoVals_spec h3.rel.inv (h3.rel.noChild hK hk), h3.mirror]
+      rw [durable, getIoVals_spec h3.rel.inv (h3.rel.noChild hE hB (by omega)), h3.mirror]
     simp only [hrun, h1, specHRun, hd, ih, h2]
 
 /-- the state a history leads to -/
@@ -399,14 +406,15 @@ def hfinal (kind : QKind) (k : Bytes) : Db → Q → List HOp → Db × Q
   | db, q, o :: os => hfinal kind k (hstep cls kind k db q o).1 (hstep cls kind k db q o).2.1 os
 
 theorem hfinal_inv {kind : QKind} (hinj : kind = .dusq → ∀ a b, cls a = cls b → a = b)
-    {K : Bytes → Prop} (hK : SepFree K) {k : Bytes} (hk : K k) (hvk : validKey (suffix k 0) = true) :
-    ∀ (os : List HOp) (n : Nat) (db : Db) (q : Q), QInv K k kind n db q.mem → n + htotal os ≤ 16 ^ W →
-      QInv K k kind (n + htotal os) (hfinal cls kind k db q os).1 (hfinal cls kind k db q os).2.mem
+    {K : Bytes → Prop} {k : Bytes} (hk : K k) {B : Nat} (hE : ExactAt K k B) (hB : B < 16 ^ W) (hvk : validKey (suffix k 0) = true)
+    {τ : St} :
+    ∀ (os : List HOp) (n : Nat) (db : Db) (q : Q), QInv K k kind n db q.mem τ → n + htotal os ≤ B →
+      QInv K k kind (n + htotal os) (hfinal cls kind k db q os).1 (hfinal cls kind k db q os).2.mem τ
   | [], _, _, _, hq, _ => hq
   | o :: os, n, db, q, hq, hw => by
     simp only [htotal] at hw
-    obtain ⟨db', q', h1, _, h3⟩ := hstep_refines cls hinj hK hk hvk hq o (by omega)
-    have ih := hfinal_inv hinj hK hk hvk os _ db' q' h3 (by omega)
+    obtain ⟨db', q', h1, _, h3⟩ := hstep_refines cls hinj hk hE hB hvk hq o (by omega)
+    have ih := hfinal_inv hinj hk hE hB hvk os _ db' q' h3 (by omega)
     simp only [hfinal, h1, htotal]
     rw [← Nat.add_assoc]; exact ih
 
@@ -432,6 +440,117 @@ theorem specHRun_no_hier (kind : QKind) : ∀ (os : List HOp) (l : List Bytes), 
     rcases hx with rfl | hx
     · exact specQ_no_hier cls kind l o
     · exact specHRun_no_hier kind os _ x hx
+
+/-! ## several queues in one store -/
+
+/-- the specification: independent FIFO queues / ordered sets, one per key; reopen is the identity -/
+def specM (kind : QKind) (σ : St) : MOp → St × QRes
+  | .q k o => (upd σ k (specQ cls kind (σ k) (.op o)).1, (specQ cls kind (σ k) (.op o)).2)
+  | .reopen => (σ, .bool true)
+
+def specMRun (kind : QKind) (keys : List Bytes) : St → List MOp → List (QRes × List (List Bytes × Except Exn (List Bytes)))
+  | _, [] => []
+  | σ, o :: os => ((specM cls kind σ o).2, keys.map (fun k => ((specM cls kind σ o).1 k, .ok ((specM cls kind σ o).1 k)))) ::
+      specMRun kind keys (specM cls kind σ o).1 os
+
+def mweight : MOp → Nat
+  | .q _ o => hweight (.op o)
+  | .reopen => 0
+
+def mtotal : List MOp → Nat
+  | [] => 0
+  | o :: os => mweight o + mtotal os
+
+structure MInv (K : Bytes → Prop) (kind : QKind) (keys : List Bytes) (n : Nat) (db : Db) (ms : MS) : Prop where
+  rel : Rel K n db (absIo db)
+  each : ∀ k ∈ keys, absIo db k = (ms k).mem ∧ (kind = .dusq → (ms k).mem.Nodup)
+
+theorem injectAll_spec {kind : QKind} (hinj : kind = .dusq → ∀ a b, cls a = cls b → a = b)
+    {K : Bytes → Prop} {B : Nat} (hG : ∀ k, K k → ExactAt K k B) (hB : B < 16 ^ W) (hvk : ∀ k, K k → validKey (suffix k 0) = true)
+    (keys : List Bytes) (hkeys : ∀ k ∈ keys, K k) {n : Nat} (hn : n ≤ B) :
+    ∀ (ks : List Bytes), (∀ k ∈ ks, k ∈ keys) → ∀ (db : Db) (ms : MS), MInv K kind keys n db ms →
+      ∃ db' ms', injectAll cls kind ks db ms = (db', ms', none) ∧ MInv K kind keys n db' ms' ∧ ∀ k, (ms' k).mem = (ms k).mem
+  | [], _, db, ms, hm => ⟨db, ms, rfl, hm, fun _ => rfl⟩
+  | k :: ks, hks, db, ms, hm => by
+    have hkm := hks k (List.mem_cons_self ..)
+    have hk := hkeys k hkm
+    have hq : QInv K k kind n db (ms k).mem (absIo db) := ⟨hm.rel, (hm.each k hkm).1, (hm.each k hkm).2, fun _ _ => rfl⟩
+    obtain ⟨db', q', h1, h2, h3⟩ := hstep_refines cls hinj hk (hG k hk) hB (hvk k hk) hq .reopen (by simpa [hweight] using hn)
+    have hinjq : inject cls kind k db = (db', .ok q') := by
+      simp only [hstep] at h1
+      cases hi : inject cls kind k db with
+      | mk d r =>
+        rw [hi] at h1
+        cases r with
+        | error x => simp [specQ] at h1
+        | ok q0 => simp only [Prod.mk.injEq] at h1; rw [h1.1, h1.2.1]
+    have hmem : q'.mem = (ms k).mem := by rw [h2]; rfl
+    have hm' : MInv K kind keys n db' (setQ ms k q') := by
+      refine ⟨h3.rel, ?_⟩
+      intro k2 hk2
+      by_cases e : k2 = k
+      · subst e; simp only [setQ, ↓reduceIte]; exact ⟨h3.mirror, h3.nodup⟩
+      · simp only [setQ, e, ↓reduceIte]
+        rw [h3.others k2 e]; exact hm.each k2 hk2
+    obtain ⟨db'', ms'', h4, h5, h6⟩ := injectAll_spec hinj hG hB hvk keys hkeys hn ks
+      (fun k2 hk2 => hks k2 (List.mem_cons_of_mem _ hk2)) db' (setQ ms k q') hm'
+    refine ⟨db'', ms'', by simp only [injectAll, hinjq, h4], h5, ?_⟩
+    intro k2
+    rw [h6 k2]
+    by_cases e : k2 = k
+    · subst e; simp [setQ, hmem]
+    · simp [setQ, e]
+
+theorem mstep_refines {kind : QKind} (hinj : kind = .dusq → ∀ a b, cls a = cls b → a = b)
+    {K : Bytes → Prop} {B : Nat} (hG : ∀ k, K k → ExactAt K k B) (hB : B < 16 ^ W) (hvk : ∀ k, K k → validKey (suffix k 0) = true)
+    (keys : List Bytes) (hkeys : ∀ k ∈ keys, K k) {n : Nat} {db : Db} {ms : MS} (hm : MInv K kind keys n db ms)
+    {σ : St} (hσ : ∀ k ∈ keys, σ k = (ms k).mem) (o : MOp) (ho : ∀ k qo, o = .q k qo → k ∈ keys) (hw : n + mweight o ≤ B) :
+    (mstep cls kind keys db ms o).2.2 = (specM cls kind σ o).2 ∧
+    MInv K kind keys (n + mweight o) (mstep cls kind keys db ms o).1 (mstep cls kind keys db ms o).2.1 ∧
+    ∀ k ∈ keys, (specM cls kind σ o).1 k = ((mstep cls kind keys db ms o).2.1 k).mem := by
+  cases o with
+  | reopen =>
+    obtain ⟨db', ms', h1, h2, h3⟩ := injectAll_spec cls hinj hG hB hvk keys hkeys (by simpa [mweight] using hw) keys
+      (fun _ h => h) db ms hm
+    simp only [mstep, h1, specM]
+    exact ⟨trivial, h2, fun k hk => by rw [h3 k]; exact hσ k hk⟩
+  | q k qo =>
+    have hkm := ho k qo rfl
+    have hk := hkeys k hkm
+    have hq : QInv K k kind n db (ms k).mem (absIo db) := ⟨hm.rel, (hm.each k hkm).1, (hm.each k hkm).2, fun _ _ => rfl⟩
+    obtain ⟨db', q', h1, h2, h3⟩ := hstep_refines cls hinj hk (hG k hk) hB (hvk k hk) hq (.op qo) hw
+    simp only [hstep] at h1
+    simp only [mstep, h1, specM, hσ k hkm]
+    refine ⟨trivial, ⟨h3.rel, ?_⟩, ?_⟩
+    · intro k2 hk2
+      by_cases e : k2 = k
+      · subst e; simp only [setQ, ↓reduceIte]; exact ⟨h3.mirror, h3.nodup⟩
+      · simp only [setQ, e, ↓reduceIte]
+        rw [h3.others k2 e]; exact hm.each k2 hk2
+    · intro k2 hk2
+      by_cases e : k2 = k
+      · subst e; simp [setQ, upd, h2]
+      · simp [setQ, upd, e, hσ k2 hk2]
+
+theorem mrun_refines {kind : QKind} (hinj : kind = .dusq → ∀ a b, cls a = cls b → a = b)
+    {K : Bytes → Prop} {B : Nat} (hG : ∀ k, K k → ExactAt K k B) (hB : B < 16 ^ W) (hvk : ∀ k, K k → validKey (suffix k 0) = true)
+    (keys : List Bytes) (hkeys : ∀ k ∈ keys, K k) :
+    ∀ (os : List MOp) (n : Nat) (db : Db) (ms : MS) (σ : St), MInv K kind keys n db ms → (∀ k ∈ keys, σ k = (ms k).mem) →
+      (∀ o ∈ os, ∀ k qo, o = .q k qo → k ∈ keys) → n + mtotal os ≤ B →
+      mrun cls kind keys db ms os = specMRun cls kind keys σ os
+  | [], _, _, _, _, _, _, _, _ => rfl
+  | o :: os, n, db, ms, σ, hm, hσ, hos, hw => by
+    simp only [mtotal] at hw
+    obtain ⟨h1, h2, h3⟩ := mstep_refines cls hinj hG hB hvk keys hkeys hm hσ o (hos o (List.mem_cons_self ..)) (by omega)
+    have ih := mrun_refines hinj hG hB hvk keys hkeys os _ _ _ _ h2 h3
+      (fun o' ho' => hos o' (List.mem_cons_of_mem _ ho')) (by omega)
+    simp only [mrun, specMRun, h1, ih]
+    congr 2
+    apply List.map_congr_left
+    intro k hk
+    have hd : durable (mstep cls kind keys db ms o).1 k = .ok ((mstep cls kind keys db ms o).2.1 k).mem := by
+      rw [durable, getIoVals_spec h2.rel.inv (h2.rel.noChild (hG k (hkeys k hk)) hB (by omega)), (h2.each k hk).1]
+    rw [hd, h3 k hk]
 
 end step
 
